@@ -91,18 +91,6 @@ func (b *BitcoinOnChain) ValidateTx(swapParams *swap.OpeningParams, openingTxHex
 		return false, err
 	}
 
-	var scriptOut *wire.TxOut
-
-	for _, out := range msgTx.TxOut {
-		if out.Value == int64(swapParams.Amount) {
-			scriptOut = out
-			break
-		}
-	}
-	if scriptOut == nil {
-		return false, nil
-	}
-
 	redeemScript, err := ParamsToTxScript(swapParams, BitcoinCsv)
 	if err != nil {
 		return false, err
@@ -117,10 +105,14 @@ func (b *BitcoinOnChain) ValidateTx(swapParams *swap.OpeningParams, openingTxHex
 		return false, err
 	}
 
-	if bytes.Compare(wantScript, scriptOut.PkScript) != 0 {
-		return false, err
+	// The swap output is the one that carries both the amount and the script;
+	// another output (e.g. change) may happen to have the same value.
+	for _, out := range msgTx.TxOut {
+		if out.Value == int64(swapParams.Amount) && bytes.Equal(wantScript, out.PkScript) {
+			return true, nil
+		}
 	}
-	return true, nil
+	return false, nil
 }
 
 func (b *BitcoinOnChain) TxIdFromHex(txHex string) (string, error) {
@@ -151,29 +143,19 @@ func (b *BitcoinOnChain) GetVoutAndVerify(txHex string, params *swap.OpeningPara
 		return false, 0, err
 	}
 
-	var scriptOut *wire.TxOut
-	var vout uint32
-	for i, out := range msgTx.TxOut {
-		if out.Value == int64(params.Amount) {
-			scriptOut = out
-			vout = uint32(i)
-			break
-		}
-	}
-	if scriptOut == nil {
-		return false, 0, err
-	}
-
 	wantScript, err := b.GetOutputScript(params)
 	if err != nil {
 		return false, 0, err
 	}
 
-	if bytes.Compare(wantScript, scriptOut.PkScript) != 0 {
-		return false, 0, err
+	// The swap output is the one that carries both the amount and the script;
+	// another output (e.g. change) may happen to have the same value.
+	for i, out := range msgTx.TxOut {
+		if out.Value == int64(params.Amount) && bytes.Equal(wantScript, out.PkScript) {
+			return true, uint32(i), nil
+		}
 	}
-
-	return true, vout, nil
+	return false, 0, nil
 }
 
 func (b *BitcoinOnChain) GetOutputScript(params *swap.OpeningParams) ([]byte, error) {
